@@ -21,7 +21,15 @@ fn make_config(root: &str, prefix: &str) -> Config {
 }
 
 pub fn victim(args: &Args) {
-    let cfg = make_config(&args.get("root").unwrap(), &args.get("prefix").unwrap());
+    let cfg = match args.get("config-file") {
+        Some(f) => Config::from_file(&FilePath::new(f.as_bytes()).expect("config file path")).expect("victim config file"),
+        None => make_config(&args.get("root").unwrap(), &args.get("prefix").unwrap()),
+    };
+    if args.flag("all") {
+        // every messaging pattern and port kind (drv-names resources)
+        crate::resources::victim_all(&cfg, &args.get("tag").unwrap());
+        return;
+    }
     let node = NodeBuilder::new()
         .config(&cfg)
         .signal_handling_mode(SignalHandlingMode::Disabled)
@@ -121,6 +129,38 @@ impl Scan {
                 let n = e.file_name().to_string_lossy().to_string();
                 if n.starts_with(&self.tag) {
                     out.insert(format!("/dev/shm/{n}"));
+                }
+            }
+        }
+        // the other plausible locations (the temp directory, the default iceoryx2 root, the current directory):
+        // entries that carry the tag of this run (other processes work there as well; `drv-names resources` sees
+        // EVERY path through the shim)
+        let mut others: Vec<std::path::PathBuf> = vec!["/tmp".into(), std::env::temp_dir(), "/tmp/iceoryx2".into()];
+        if let Ok(c) = std::env::current_dir() {
+            others.push(c);
+        }
+        others.sort();
+        others.dedup();
+        for dir in others {
+            if self.roots.iter().any(|r| std::path::Path::new(r).starts_with(&dir) && std::path::Path::new(r) == dir) {
+                continue;
+            }
+            if let Ok(rd) = std::fs::read_dir(&dir) {
+                for e in rd.flatten() {
+                    let n = e.file_name().to_string_lossy().to_string();
+                    if n.contains(&self.tag) {
+                        out.insert(e.path().to_string_lossy().to_string());
+                    }
+                }
+            }
+        }
+        // unix sockets (bound paths and abstract names) that carry the tag
+        if let Ok(t) = std::fs::read_to_string("/proc/net/unix") {
+            for line in t.lines().skip(1) {
+                if let Some(p) = line.split_whitespace().nth(7) {
+                    if p.contains(&self.tag) && !self.roots.iter().any(|r| p.starts_with(r.as_str())) {
+                        out.insert(p.to_string());
+                    }
                 }
             }
         }
